@@ -52,7 +52,10 @@ class Sig(object):
         self.text = 'def f(%s)' % self.params
 
     def compile(self):
-        ns = {'CALLS': [0]}
+        # generated functions look like real ones: they have a module, and (like lambdas, closures from one factory or
+        # redefinitions in real code) they all share one (module, qualified name) -- a per-name memo inside klepto
+        # would be shared between them
+        ns = {'CALLS': [0], '__name__': 'vfw_generated'}
         exec(compile(self.src, '<sig %s>' % self.params, 'exec'), ns)
         f = ns['f']
         f.CALLS = ns['CALLS']
